@@ -129,6 +129,7 @@ func main() {
 	cst := &combStats{outcomes: ev.NewCounter()}
 	var mu sync.Mutex
 	var results []bfsResult
+	var hot *hotStats
 	finish := func() {
 		mu.Lock()
 		defer mu.Unlock()
@@ -144,7 +145,7 @@ func main() {
 			r.Violate("C09/combiner/tmpdir/spill-dir-left", fmt.Sprintf("%d spiller directories left under TMPDIR after all combiners were read back, e.g. %s", len(left), left[0]), left)
 		}
 		pprof.StopCPUProfile()
-		r.Finish(coverage(results, fst, cst, framePlans, combPlans))
+		r.Finish(coverage(results, fst, cst, hot, framePlans, combPlans))
 	}
 	go watchdog(r, func(sp space, h hist) {
 		sig := "C09/" + strings.Join(strings.Split(sp.label(), "/")[:2], "/") + "/" + lastOpClass(sp.alpha(), h) + "/hang"
@@ -180,6 +181,25 @@ func main() {
 					mu.Unlock()
 				}
 			}
+		}
+	}
+
+	// ---- hot-key family: one key combined N times, N around the powers of two -----
+	if want("hotkey") {
+		if r.Elapsed() > budget {
+			hot = &hotStats{Skipped: true}
+			r.NotExhaustive("time budget: hot-key family not run")
+		} else {
+			exec.VerifC09SetCombiningFrameSizes(8, 3)
+			if err := flag.Set("bigslice-internal-default-chunk-rows", "3"); err != nil {
+				ev.Fatal("flag.Set: %v", err)
+			}
+			sortio.VerifC09SetChunk(3)
+			sliceio.SpillBatchSize = 3
+			h := hotKeyFamily(r, kinds)
+			mu.Lock()
+			hot = h
+			mu.Unlock()
 		}
 	}
 
@@ -231,7 +251,10 @@ func listDir(dir string) map[string]bool {
 	return out
 }
 
-func coverage(results []bfsResult, f *frameStats, c *combStats, fp []framePlan, cp []combPlan) ev.Coverage {
+func coverage(results []bfsResult, f *frameStats, c *combStats, hot *hotStats, fp []framePlan, cp []combPlan) ev.Coverage {
+	if hot == nil {
+		hot = &hotStats{}
+	}
 	var states int
 	var trans int64
 	maxDepth := 0
@@ -282,7 +305,7 @@ func coverage(results []bfsResult, f *frameStats, c *combStats, fp []framePlan, 
 	return ev.Coverage{
 		"states":                        states,
 		"transitions":                   trans,
-		"traces_validated_against_impl": f.traces + c.readbacks, // every replay on a fresh real object
+		"traces_validated_against_impl": f.traces + c.readbacks + hot.Cases, // every replay on a fresh real object
 		"max_depth":                     maxDepth,
 		// non-vacuity, measured over every executed history:
 		"histories_reaching_a_resize":         f.withResize,
@@ -322,6 +345,7 @@ func coverage(results []bfsResult, f *frameStats, c *combStats, fp []framePlan, 
 			"spilled_and_table_grew":       c.spillAfterGr,
 			"distinct_readback_outcomes":   c.outcomes.Distinct(),
 		},
+		"hotkey":    hot,
 		"spaces":    spaces,
 		"alphabets": alphabets,
 	}
